@@ -25,7 +25,7 @@ MANIFEST = dict(
 )
 BOUNDS = {
     'quick': {'history': '<= 3 operations over 9 kinds (at most one batch call), first operation is an add on (A, f) or a call; plus 6 targeted histories of 4-5 operations on one (endpoint, method) pair; pairs from {(A,f),(A,g),(B,f)}', 'transport': 'sync and async', 'passthrough': 'on and off'},
-    'thorough': {'history': '<= 4 operations', 'transport': 'sync and async', 'passthrough': 'on and off'},
+    'thorough': {'history': '<= 3 operations in all 4 configurations, 4 operations (>= 2 requests) on the sync / refusing configuration; 6 targeted histories', 'transport': 'sync and async', 'passthrough': 'on and off'},
 }
 STUBS = ['S5', 'S12 mocker json -> wire model', 'S13', 'mock.patch start/stop executed untraced']
 OUTSIDE = ['histories longer than the bound', 'replace / remove of a non-existent patch (raises KeyError/IndexError; unspecified)', 'version strings other than 2.0']
@@ -64,6 +64,9 @@ def obligations(tier):
                         continue          # nothing to replace / remove yet (vacuous)
                     if tier == 'quick' and n == 3 and (transport == 'async' or pt) and ops.count('call') + ops.count('batch') < 2:
                         continue
+                    if n == 4 and (transport == 'async' or pt or ops.count('call') + ops.count('batch') + ops.count('notif') < 2
+                                   or 'batch' in ops[:2]):
+                        continue          # thorough tier: 4-operation histories on the sync / refusing configuration, >= 2 requests
                     obs.append({'h': 'history', 'ops': ops, 'transport': transport, 'pt': pt, '_weight': 3 ** n})
     # targeted longer histories (round-robin over two patches, replace at an index, remove, re-add)
     for ops in TARGETED:
